@@ -23,6 +23,7 @@ structure St where
   tracked : List Nat := []           -- objects reported DOWN by an event and not connected since
   deb : RGhost := {}                 -- unit tier on the real refreshDebouncer (`reset evdb`, `evdb…`)
   tm : TokenMeta.TMeta := {}         -- the token-aware policy's metadata (token ring + replica tables)
+  scache : List Nat := []            -- keyspaces in the session's schema cache
   toks : List (Nat × Nat) := []      -- object ↦ number of tokens (objects of `evhost` have one)
   q : EvQueue.Q := {}                -- unit tier on the real eventDebouncer (`reset evq`, `evq…`): the model of the code
   qs : EvQueue.Spec := {}            -- … and the value-level specification run through the same schedule
@@ -184,6 +185,18 @@ def tmetaStr (te : TokenMeta.TEnv) (tm : TokenMeta.TMeta) : String :=
   " repl=" ++ (if tm.repl.isEmpty then "-" else
     ";".intercalate ((sortBy (fun e : Nat × List RHost => [e.1]) tm.repl).map (fun e => toString e.1 ++ ":" ++ ids e.2)))
 
+def parseSchemaEv (w : String) : Option TokenMeta.SchemaEv :=
+  match w.toList with
+  | 'k' :: r => some (.keyspace (nat (String.ofList r)))
+  | 't' :: r => some (.other (nat (String.ofList r)))
+  | 'y' :: r => some (.other (nat (String.ofList r)))
+  | 'f' :: r => some (.other (nat (String.ofList r)))
+  | 'a' :: r => some (.other (nat (String.ofList r)))
+  | _ => none
+
+def schemaStr (s : St) (c : List Nat) (tm : TokenMeta.TMeta) : String :=
+  "cache=" ++ join ((sortNat c).map toString) ++ " " ++ (if s.tokenAware then tmetaStr s.tenv tm else "-")
+
 def showEv : Ev → String
   | .topology => "t"
   | .status .up a => "u" ++ toString a
@@ -239,6 +252,7 @@ def refreshOp (s : St) (rows : String) : St × String :=
   reset evdb                                    a real refreshDebouncer (1 h interval, refreshFn blocks until released, timer fired by hand)
   evdbreq | evdbnow | evdbfire | evdbrel | evdbdrain   debounce() / refreshNow() / the timer fires / refreshFn returns / until quiet (Model DOp)
   evpart | evks <k>                             policy.SetPartitioner(Murmur3) / policy.KeyspaceChanged(ks<k>) → the token-aware metadata
+  evscache <k> | evschema <evs>                 the schema cache is filled for ks<k> / Session.handleSchemaEvent; evs = k<ks> | t<ks> | y<ks> | f<ks> | a<ks>
   evtmeta                                       the token-aware policy's metadata: hosts of the token ring, token owners, replica tables
   evrouted                                      oracle "every host the metadata refers to / a routed query is offered is an object of the ring"
   reset evq                                     a real eventDebouncer whose callback waits for the harness before it reads its frames
@@ -410,6 +424,13 @@ def step (s : St) (ws : List String) : St × String :=
     let ps := TokenMeta.pstep env s.tenv ⟨s.v.pol, s.tm⟩ (.keyspaceChanged (nat k))
     ({ s with tm := ps.tm }, tmetaStr s.tenv ps.tm)
   | ["evtmeta"] => (s, tmetaStr s.tenv s.tm)
+  | ["evscache", k] =>
+    let st := TokenMeta.schemaOp env s.tenv s.v.pol ⟨s.scache, s.tm⟩ (.fill (nat k))
+    ({ s with scache := st.cache }, schemaStr s st.cache s.tm)
+  | ["evschema", b] =>
+    let evs := if b == "-" then [] else (b.splitOn ",").filterMap parseSchemaEv
+    let st := TokenMeta.schemaOp env s.tenv s.v.pol ⟨s.scache, s.tm⟩ (.events evs)
+    ({ s with scache := st.cache, tm := st.tm }, schemaStr s st.cache st.tm)
   | ["evrouted"] =>
     -- oracle: every host the token-aware metadata refers to (every host a routed query can be offered) is an object of
     -- the ring (C16_routed_oracle_ok)
